@@ -178,7 +178,7 @@ class TypeNode:
     """The unwrapped type annotation for this node."""
     var: str | None = None
     """The variable or parameter name associated to the type annotation for this node."""
-    cyclic: bool = dataclasses.field(default=False, hash=False, compare=False)
+    cyclic: bool = dataclasses.field(default=False, hash=False)
     """Whether this type annotation is cyclic."""
 
     def __post_init__(self):
